@@ -98,6 +98,20 @@ pub struct Child {
     pub pid: libc::pid_t,
     /// read end of the child's report pipe
     pub report: std::fs::File,
+    reaped: bool,
+}
+
+impl Drop for Child {
+    fn drop(&mut self) {
+        // a child that nobody waited for (the case returned early) must not linger
+        if !self.reaped {
+            unsafe {
+                libc::kill(self.pid, libc::SIGKILL);
+                let mut st = 0;
+                libc::waitpid(self.pid, &mut st, 0);
+            }
+        }
+    }
 }
 
 /// Fork a child that runs `f` with a writer for its report and then `_exit`s with f's return value.
@@ -109,6 +123,8 @@ pub fn fork_child(f: impl FnOnce(&mut std::fs::File) -> i32) -> Child {
     let pid = unsafe { libc::fork() };
     assert!(pid >= 0, "fork failed");
     if pid == 0 {
+        // never outlive the worker process
+        unsafe { libc::prctl(libc::PR_SET_PDEATHSIG, libc::SIGKILL) };
         crate::interpose::raw_close(fds[0]);
         let mut w = unsafe { std::fs::File::from_raw_fd(fds[1]) };
         let code = match std::panic::catch_unwind(std::panic::AssertUnwindSafe(|| f(&mut w))) {
@@ -119,7 +135,7 @@ pub fn fork_child(f: impl FnOnce(&mut std::fs::File) -> i32) -> Child {
         unsafe { libc::_exit(code) };
     }
     crate::interpose::raw_close(fds[1]);
-    Child { pid, report: unsafe { std::fs::File::from_raw_fd(fds[0]) } }
+    Child { pid, report: unsafe { std::fs::File::from_raw_fd(fds[0]) }, reaped: false }
 }
 
 impl Child {
@@ -131,6 +147,7 @@ impl Child {
         loop {
             let r = unsafe { libc::waitpid(self.pid, &mut status, libc::WNOHANG) };
             if r == self.pid {
+                self.reaped = true;
                 end = if libc::WIFEXITED(status) {
                     ChildEnd::Exited(libc::WEXITSTATUS(status))
                 } else if libc::WIFSIGNALED(status) {
@@ -145,6 +162,7 @@ impl Child {
                     libc::kill(self.pid, libc::SIGKILL);
                     libc::waitpid(self.pid, &mut status, 0);
                 }
+                self.reaped = true;
                 end = ChildEnd::TimedOut;
                 break;
             }
